@@ -308,8 +308,8 @@ Proof. destruct r; [apply In_inits | simpl; tauto]. Qed.
 Lemma In_prox_opt (r : bool) k : In (if r then k else PNone) (if r then proxes else [PNone]).
 Proof. destruct r; [apply In_proxes | simpl; tauto]. Qed.
 (* every configuration of a listed family: all families except the documented float64 one (FLeverage) and the plain mask
-   multipliers as the code is now (FMaskMul: known finding, characterised exactly by mask_mul_is_promotion below; the
-   candidate repair FMaskMulCast is listed) *)
+   multipliers as they were before the repair ba7a532 (FMaskMul, characterised exactly by mask_mul_is_promotion below; the code now,
+   FMaskMulCast, is listed) *)
 Definition valid_cfg (c : cfg) : Prop := In (c_fam c) families.
 Lemma valid_cfg_iff c : valid_cfg c <-> (c_fam c <> FLeverage /\ c_fam c <> FMaskMul).
 Proof.
@@ -657,7 +657,7 @@ Proof. intros E. unfold run. rewrite E. simpl. apply iter_id. reflexivity. Qed.
 Lemma mask_mul_no_body cast masked alt : p_body (mask_mul_prog cast masked alt) = [].
 Proof. reflexivity. Qed.
 
-(* the code as it is: every output is EXACTLY the NumPy promotion of the data's dtype with the mask's dtype *)
+(* the code before ba7a532: every output was EXACTLY the NumPy promotion of the data's dtype with the mask's dtype *)
 Lemma mask_mul_is_promotion_b :
   forallb (fun alt => forallb (fun t => forallb (fun m =>
      forallb (fun o => dt_eqb (snd o) (promote t m)) (out_dtypes (mkenv t m) (mask_mul_prog false true alt) 0)) mask_dts) ctxs) bools2 = true.
@@ -701,7 +701,7 @@ Proof.
   simpl in Ht. destruct Ht as [<-|[<-|[<-|[<-|[]]]]]; destruct cast, alt; simpl in Hin;
     repeat (destruct Hin as [Hin|Hin]; [injection Hin as <- <-; reflexivity|]); destruct Hin.
 Qed.
-(* the candidate repair is an instance of the general theorems (FMaskMulCast is a listed family) *)
+(* the code since ba7a532 is an instance of the general theorems (FMaskMulCast is a listed family) *)
 Definition maskmul_cast_cfg (alt : bool) := mkcfg FMaskMulCast IRandom true false false false false false PNone false false alt.
 Lemma mask_mul_cast_any_mask alt t m n s e : In t ctxs -> In (s, e) (p_outs (skeleton (maskmul_cast_cfg alt))) ->
   eval (mkenv t m) (run (mkenv t m) (skeleton (maskmul_cast_cfg alt)) n) e = t.
